@@ -64,10 +64,6 @@ theorem intersect_plain (a b : RC) (ha : a.WF) (hb : b.WF)
 
 end RC
 
-/-- the members are listed from low to high, each strictly below the later ones -/
-def SortedRC (l : List RC) : Prop :=
-  l.Pairwise (fun x y => x.view.isStrictlyLower y.view = true)
-
 /-- some part admits the probe -/
 def anyPart (parts : List VC) (p : Version) : Prop := ∃ q ∈ parts, q.allowsPlain p = true
 
